@@ -1,5 +1,5 @@
 import AidlVerif.Props.LrTerm
-import AidlVerif.Props.LrSafeCertDefs
+import AidlVerif.Props.LrSafeCert
 
 /-!
 The termination certificate of THIS run's tables is accepted by the checker `Pot.ok`, and every
@@ -22,5 +22,16 @@ theorem lex_nonnull : LexerProgress.lexNonNull Driver.Parse.tables.lex = true :=
 
 theorem lexProg_run : LexProg Driver.Parse.tables :=
   fun fuel s p t rest h => LexerProgress.next_progress _ lex_nonnull fuel s p t rest h
+
+theorem acc_ok : pot.wMax ≤ 1 ∧ pot.wMax + pot.rMax < 1023 := by decide +kernel
+
+/-- **the simulation `accepts` inside `error_recovery` never reaches its own step bound** (tables of
+    this run): the model's `getD false` on its result hides nothing -/
+theorem errorCandidate_total_run (s : St) (hc : LrSafe.Chain LrSafe.cert s.states s.syms) (top : Nat) (col : Option Nat)
+    (errState : Nat) (htop : top < s.states.length)
+    (hsh : asShift (errorAction Driver.Parse.tables ((s.states.drop (s.states.length - 1 - top)).headD 0)) = some errState) :
+    accepts Driver.Parse.tables errState (s.states.drop (s.states.length - 1 - top)) col (s.states.length + 1024) ≠ none :=
+  errorCandidate_total Driver.Parse.tables LrSafe.cert pot (LrSafe.certFacts _ _ LrSafe.cert_ok)
+    (potFacts _ _ _ pot_ok) acc_ok.1 acc_ok.2 s hc top col errState htop hsh
 
 end Aidl.Props.LrTerm
